@@ -33,9 +33,9 @@ class FileWriter:
                 self.markers[m] = [ln, expected]
             self.lines.append(phys)
 
-    def filler(self, n, rng):
+    def filler(self, n, rng, code_ok=True):
         for k in range(n):
-            r = rng.random()
+            r = rng.random() if code_ok else rng.random() * 0.9
             if r < 0.3:
                 self.lines.append("")
             elif r < 0.9:
@@ -195,7 +195,7 @@ class Gen:
         elif k == "log":
             A("pt.Log(pt.Itob(pt.Int({M}))),")
             self.app_only = True
-            self.min_version = max(self.min_version, 2)
+            self.min_version = max(self.min_version, 5)
         elif k == "itxn":
             A("pt.InnerTxnBuilder.Execute({pt.TxnField.type_enum: pt.TxnType.Payment, pt.TxnField.amount: pt.Int({M}),")
             A("                            pt.TxnField.receiver: pt.Txn.sender(), pt.TxnField.fee: pt.Int({M})}),")
@@ -349,7 +349,7 @@ class Gen:
             while self.budget > 0:
                 self.stmts(w, 8, 1, ctx, n=3)
                 if rng.random() < 0.3:
-                    w.filler(rng.randint(0, filler), rng)
+                    w.filler(rng.randint(0, filler), rng, code_ok=False)
             w.add("        pt.Int({M}),")
             w.add("    )")
         else:
@@ -369,7 +369,7 @@ class Gen:
             while self.budget > 0 and nm < 4:
                 nm += 1
                 w.add("")
-                w.filler(rng.randint(0, filler), rng)
+                w.filler(rng.randint(0, filler), rng, code_ok=False)
                 if rng.random() < 0.5:
                     w.add("    @router.method")
                     w.add("    def m%d(a: pt.abi.Uint64, b: pt.abi.Uint64, *, output: pt.abi.Uint64):" % nm)
